@@ -32,9 +32,10 @@ VARIANTS = {
     "anchors1": dict(dirs=["", "a"], anchors=1, conf=""),
     "alldirs": dict(dirs=["", "a", "a/b", "c", "c/d", "a/b/e"], anchors=3, conf=""),
     "sametitle": dict(dirs=["", "a", "a/b"], anchors=3, conf="", sametitle=True),
+    "nitpick": dict(dirs=["", "a"], anchors=3, conf="nitpick_ignore_regex=[('myst', r'nodoc'), ('myst', r'nolabel'), ('myst', r'sub/no')]\n"),
     "external": dict(dirs=["", "a"], anchors=3, conf="myst_all_links_external=False\nmyst_url_schemes=['http','https']\n"),
 }
-QUICK = ["base", "deep", "refdomains", "sametitle"]
+QUICK = ["base", "deep", "refdomains", "sametitle", "nitpick"]
 
 
 def dn(d, n):
@@ -54,7 +55,7 @@ def build_project(root, spec):
     for i, d in enumerate(dirs):
         name = dn(d, f"t{i}")
         title = "Same Title" if spec.get("sametitle") else f"Title T{i}"
-        (src / (name + ".md")).write_text(f"(lbl-t{i})=\n# {title} *em*\n\n## Sub\n\ntext\n\n## Sub\n\n(lbl-p{i})=\npara P{i}\n\n### Deep `code`\n\n(Lbl-Cap{i})=\n#### Capital label section\n")
+        (src / (name + ".md")).write_text(f"(lbl-t{i})=\n# {title} *em*\n\n## Sub\n\ntext\n\n## Sub\n\n(lbl-p{i})=\npara P{i}\n\n### Deep `code`\n\n(Lbl-Cap{i})=\n#### Capital label section\n\n## Über uns\n\n## 安装 notes\n")
         (src / dn(d, f"f{i}.txt")).write_text("file")
         targets[name] = i
         # a page with the SAME file name in every directory (identical relative spelling from different source pages)
@@ -82,18 +83,22 @@ def build_project(root, spec):
             for sp, dest in spell.items():
                 if dest is None:
                     continue
-                for anchor, kind in (("", "page"), ("#sub", "sub"), ("#sub-1", "sub1"), ("#deep-code", "deep")):
+                for anchor, kind in (("", "page"), ("#sub", "sub"), ("#sub-1", "sub1"), ("#deep-code", "deep"), ("#über-uns", "uni"), ("#安装-notes", "cjk")):
                     if sp in ("noext", "abs-noext") and anchor:
                         continue
                     if kind == "deep" and spec["anchors"] < 3:
                         continue
-                    if kind in ("sub", "sub1") and spec["anchors"] < 2:
+                    if kind in ("sub", "sub1", "uni", "cjk") and spec["anchors"] < 2:
+                        continue
+                    if kind in ("uni", "cjk") and sp not in ("rel", "abs"):
                         continue
                     for explicit in (True, False):
                         add(f"[{{M}} *x*]({dest}{anchor})" if explicit else f"[]({dest}{anchor})", kind=kind, target=tname, explicit=explicit, spelling=sp)
             add(f"<project:{rel}>", kind="page", target=tname, explicit=False, spelling="project-auto")
             if spec["anchors"] >= 2:
                 add(f"<project:{rel}#sub>", kind="sub", target=tname, explicit=False, spelling="project-auto")
+                add(f"<project:{rel}#über-uns>", kind="uni", target=tname, explicit=False, spelling="project-auto")
+                add(f"[{{M}} *x*](project:{rel}#安装-notes)", kind="cjk", target=tname, explicit=True, spelling="project-link")
             add(f"[{{M}} *x*](project:{rel})", kind="page", target=tname, explicit=True, spelling="project-link")
             add(f"[](#lbl-t{i})", kind="label-t", target=tname, explicit=False, spelling="hash-label")
             add(f"[](lbl-t{i})", kind="label-t", target=tname, explicit=False, spelling="bare-label")
@@ -178,6 +183,7 @@ class ProjectSystem(System):
                     "label-p": [p["ids"][0] for p in dt.findall(nodes.paragraph) if p["ids"]][0],
                     "title": secs[0][0].astext(), "subtitle": "Sub", "deeptitle": secs[3][0].astext(),
                     "label-cap": [i_ for i_ in secs[4]["ids"] if "lbl-cap" in i_.lower()][0], "captitle": secs[4][0].astext(),
+                    "uni": secs[5]["ids"][0], "unititle": secs[5][0].astext(), "cjk": secs[6]["ids"][0], "cjktitle": secs[6][0].astext(),
                 }
             app._warning.truncate(0)
             app._warning.seek(0)
@@ -202,7 +208,7 @@ class ProjectSystem(System):
                     bad("link-kept", "the paragraph holding the link disappeared")
                     continue
                 refs = [r for r in p.findall(lambda x: isinstance(x, nodes.reference) or x.tagname == "download_reference")]
-                if kind in ("page", "sub", "sub1", "deep", "label-t", "label-p", "label-cap"):
+                if kind in ("page", "sub", "sub1", "deep", "label-t", "label-p", "label-cap", "uni", "cjk"):
                     tname = L["target"]
                     frag = tid[tname][kind]
                     exp = posixpath.relpath(tname + ".html", sd or ".") + ("#" + frag if frag else "")
@@ -221,7 +227,7 @@ class ProjectSystem(System):
                         if txt != f"{m} x" or not list(refs[0].findall(nodes.emphasis)):
                             bad("text", f"explicit text {txt!r}, written '{m} *x*'", which="explicit")
                     else:
-                        want = {"page": tid[tname]["title"], "sub": "Sub", "sub1": "Sub", "deep": tid[tname]["deeptitle"], "label-t": tid[tname]["title"], "label-cap": tid[tname]["captitle"]}[kind]
+                        want = {"page": tid[tname]["title"], "sub": "Sub", "sub1": "Sub", "deep": tid[tname]["deeptitle"], "label-t": tid[tname]["title"], "label-cap": tid[tname]["captitle"], "uni": tid[tname]["unititle"], "cjk": tid[tname]["cjktitle"]}[kind]
                         if txt != want:
                             bad("text", f"empty link text filled with {txt!r}, the target's title is {want!r}", which="implicit")
                     if any(x in warns for x in (f"'{tname}'", m)) and "xref_missing" in "".join(w for w in warns.splitlines() if m in w):
